@@ -22,7 +22,7 @@ CONSTANTS Truthiness,     \* BOOLEAN: model `if nr and dr` (zero is falsy) as th
 Absent == -999
 NonNumeric == -998
 \* value classes of one option: absent, not a number, negative, zero, positive (two different positive values)
-NrVals == {Absent, NonNumeric, -3, 0, 5, 9}
+NrVals == {Absent, NonNumeric, -3, 0, 1, 2, 5, 9}     \* 1: a single row has no spacing (rejected); 2: the smallest grid
 DrVals == {Absent, NonNumeric, -1, 0, 1, 2}           \* quarters
 CutVals == {Absent, NonNumeric, -8, 0, 8, 12}         \* quarters
 
@@ -42,7 +42,8 @@ Truthy(v) == IF Truthiness THEN Present(v) /\ v # 0 ELSE Present(v)
 
 -----------------------------------------------------------------------------
 (* (a) the statement *)
-Derive(i) ==
+OneRow(o) == IF o # Reject /\ o.nr # Absent /\ o.nr < 2 THEN Reject ELSE o       \* rows are cutoff/(nr-1) apart: at least two
+Derive(i) == OneRow(
   LET vs == <<i.nr, i.dr, i.cut>>
       present == {x \in 1..3 : Present(vs[x])} IN
   IF \E x \in present : ~Numeric(vs[x]) THEN Reject
@@ -53,7 +54,7 @@ Derive(i) ==
   ELSE IF present = {2, 3} THEN
         \* cutoff a whole multiple k of dr: exactly k+1 rows. (Not a multiple: the statement is silent; the code floors.)
         Acc((i.cut \div i.dr) + 1, i.cut)
-  ELSE Acc(i.nr, i.cut)                                   \* {1,3}, {1}, {3}, {}: as given / defaults
+  ELSE Acc(i.nr, i.cut))                                  \* {1,3}, {1}, {3}, {}: as given / defaults
 
 \* the factory's defaults for what is still None
 WithDefaults(o, dn, dc) == IF o = Reject THEN o ELSE Acc(IF o.nr = Absent THEN dn ELSE o.nr, IF o.cut = Absent THEN dc ELSE o.cut)
@@ -95,8 +96,9 @@ Signs == /\ pc = "signs"
             ELSE /\ pc' = "branch" /\ UNCHANGED out
          /\ UNCHANGED <<inp, nr, dr, cut>>
 
+\* if not nr is None and nr < 2: raise  (the last check of _init_cutoff)
 Finish == /\ pc = "finish"
-          /\ out' = Acc(nr, cut) /\ pc' = "done"
+          /\ out' = (IF Present(nr) /\ nr < 2 THEN Reject ELSE Acc(nr, cut)) /\ pc' = "done"
           /\ UNCHANGED <<inp, nr, dr, cut>>
 
 Next == Read \/ AllThree \/ SetCutoff \/ SetNr \/ StepAlone \/ NoBranch \/ Signs \/ Finish
